@@ -79,7 +79,7 @@ _P["C01"] = {
 }
 _P["C13"] = {
     "explanation": "Theorems C13_* (Properties/C13.v): any history of Len()/MarshalBinary() calls on a consistent value returns constant results "
-                   "(state-passing model of the write-backs of length fields, idempotence of norm); correspondence on random op sequences of length 2..8.",
+                   "(state-passing model of the write-backs of length fields, idempotence of norm); C13_decoded_values: the value the parser returns for the encoding of any controller-side recipe answers every operation sequence with one size and the bytes it was parsed from (Proofs/DecodedOpsP.v); correspondence on random op sequences of length 2..8 on built values, on values obtained by parsing their encodings, on Ethernet frames and on the record kinds of package protocol.",
     "trusted_base": _ENC_TRUSTED, "assumptions": ["Len() of NXActionCTNAT writes the rounded length back; the model folds that into MarshalBinary's write-back (same observable results)"],
 }
 
